@@ -915,6 +915,15 @@ func (e *Env) evalCall(n *ast.CallExpr) Val {
 			e.fail("implements: unknown type %s", name)
 		}
 		return boolVal(App("implements_"+typeKey(t), SBool, App("itype", SInt, arg(0).T())))
+	case "box":
+		// box(x): the interface value holding scalar/pointer x (as MakeInterface builds it)
+		v := arg(0)
+		if len(v.C) != 1 || v.Typ == nil {
+			e.fail("box() of a non-scalar")
+		}
+		tag := e.x.prog.typeTag(v.Typ)
+		e.x.prog.noteTagSort(tag, v.C[0].S)
+		return Val{C: []*T{App(fmt.Sprintf("mkiface_%d", tag), SInt, v.C[0])}}
 	case "cast":
 		// cast(ref, "T"): view a reference as a value of Go type T (resolved in the package under verification)
 		lit, ok := n.Args[1].(*ast.BasicLit)
